@@ -83,3 +83,10 @@ def big_to_native_float(bits):
                     csig='static %s big_to_native_f%d(const uint8_t* first, size_t count)' % (t, bits),
                     rules=[(r'\bT val;', '%s val;' % t, 1), (r'\bbyte_swap\(', 'byte_swap_f%d(' % bits, 1), (r'return T\{\};', 'return 0;', 1),
                            (r'sizeof\(T\)', 'sizeof(%s)' % t, 2)])
+
+
+def little_to_native_float(bits):
+    t = {32: 'float', 64: 'double'}[bits]
+    return FuncSpec('little_to_native_f%d' % bits, BIN, r'\blittle_to_native\s*\(const uint8_t\* first, std::size_t count\)', ordinal=0, count=2,
+                    csig='static %s little_to_native_f%d(const uint8_t* first, size_t count)' % (t, bits),
+                    rules=[(r'\bT val;', '%s val;' % t, 1), (r'return T\{\};', 'return 0;', 1), (r'sizeof\(T\)', 'sizeof(%s)' % t, 2)])
